@@ -125,6 +125,13 @@ def env():
             self.node = Node(self.address, vlan)
             self.nsap.bind(self.node)
 
+    from bacpypes.service.cov import ChangeOfValueServices
+
+    class AppCov(App, ChangeOfValueServices):
+        """the same device with the COV services: they add the computed
+        activeCovSubscriptions property to the device object"""
+
+    E.AppCov = AppCov
     E.App, E.Network, E.Address, E.LocalBroadcast = App, Network, Address, LocalBroadcast
     E.LocalDeviceObject = LocalDeviceObject
     E.bo, E.lo = bo, lo
@@ -471,7 +478,7 @@ def gen_fixture(E, rng, types, n_cmd=3):
     ot = rng.choice(["analogValue", "binaryInput", "characterstringValue"])
     objs.append({"kind": "nw", "type": ot, "inst": 200 + inst, "name": "nw-%d" % inst, "own": [],
                  "init": {}, "plain": []})
-    return {"objects": objs}
+    return {"objects": objs, "cov": rng.random() < 0.3}
 
 
 class Fixture:
@@ -488,7 +495,7 @@ class Fixture:
             segmentationSupported="segmentedBoth", maxSegmentsAccepted=64, vendorIdentifier=999)
         self.client = E.App(mk("client", 1), self.vlan)
         self.devobj = mk("dut", 2)
-        self.dev = E.App(self.devobj, self.vlan)
+        self.dev = (E.AppCov if spec.get("cov") else E.App)(self.devobj, self.vlan)
         self.dest = E.Address(2)
         self.objects = []          # (spec, instance)
         self.shadow = {}           # oracle's own record of the commands it has sent: (type, inst) -> {priority: value hex}
@@ -542,16 +549,23 @@ class Fixture:
             # class (the objectType property register_object_type appends is
             # not a declaration: the model takes it from the base table)
             declared = [q for c in cls.__mro__ for q in vars(c).get("properties", [])]
-            own = []
-            for name, p in cls._properties.items():
-                if base._properties.get(name) is not p and any(p is q for q in declared):
-                    d = E.sch.prop(p)
-                    if d["custom"] == "computed":
-                        # what the property computes on a read (clock / service table): supplied
-                        d["cval"] = elem_item(E, p.datatype, p.ReadProperty(inst))
-                    own.append(d)
+            own, extra, replace = [], [], []
+            for name, p in inst._properties.items():
+                if base._properties.get(name) is p:
+                    continue
+                is_decl = any(p is q for q in declared)
+                if not is_decl and cls._properties.get(name) is p:
+                    continue                      # the objectType register_object_type appended
+                d = E.sch.prop(p)
+                if d["custom"] == "computed":
+                    # what the property computes on a read (clock / service table / subscriptions): supplied
+                    d["cval"] = pval_of(E, p.datatype, p.ReadProperty(inst))
+                # declared by the class / a mix-in, or added to the instance (Object.add_property:
+                # appended after everything else, e.g. activeCovSubscriptions by the COV services)
+                # ... an identifier the class already has keeps its place in the dictionary)
+                (own if is_decl else replace if name in cls._properties else extra).append(d)
             init = []
-            for name, p in cls._properties.items():
+            for name, p in inst._properties.items():
                 if name == "objectType" and "objectType" not in spec.get("init", {}):
                     continue                      # left to the model's default handling
                 cust = E.sch.custom(p)
@@ -570,8 +584,8 @@ class Fixture:
                 cmd = [E.pidnum["presentValue"], E.pidnum["priorityArray"], E.pidnum["relinquishDefault"]]
             t, i = inst._values["objectIdentifier"]
             reqs.append({"op": "add", "oid": [E.otnum[t], i], "base": E.otnum[cls.objectType], "own": own,
-                         "cmd": cmd, "init": init, "local": spec["kind"] == "dev"})
-            self.expected_ids.append([E.pidnum[n] for n in cls._properties])
+                         "extra": extra, "replace": replace, "cmd": cmd, "init": init, "local": spec["kind"] == "dev"})
+            self.expected_ids.append([E.pidnum[n] for n in inst._properties])
         reqs.append({"op": "snap"})
         return reqs
 
@@ -900,6 +914,14 @@ def directed_ops(E, fx, rng, limit=70):
                     ops.append({"op": "rp", "oid": oid, "pid": pid, "idx": idx})
                 ops.append({"op": "rpm", "specs": [{"oid": oid, "refs": [{"pid": pid, "idx": n}, {"pid": pid, "idx": n + 1},
                                                                           {"pid": pid, "idx": 0}]}]})
+            if E.sch.custom(p) == "computed":
+                # computed by the device (clock, services, COV subscriptions): never an array, never writable
+                ops.append({"op": "rp", "oid": oid, "pid": pid, "idx": 1})
+                ops.append({"op": "rp", "oid": oid, "pid": pid, "idx": None})
+                tags = gen_tags(E, p.datatype, rng)
+                if tags is not None:
+                    ops.append({"op": "wp", "oid": oid, "pid": pid, "idx": None, "tags": tags, "prio": None,
+                                "vclass": "typed"})
             k = limited_unsigned(p.datatype)
             if k is not None and p.mutable and inst._values.get(name) is not None:
                 for vclass, make in (("typed", lambda: gen_tags(E, p.datatype, rng)),
